@@ -156,3 +156,52 @@ func VerifHarness_C09_exec_step() {
 		}
 	}
 }
+
+// T4: a transaction reported invalid leaves NOTHING behind for the rest of the block: the block
+// [bad, good] treats `good` exactly as the block [good] does. bad is an EVM transfer of more than
+// the sender owns (with a small, a huge or the maximal gas limit), a transaction with a stale or a
+// future nonce, or an undecodable key-value transaction; good is a plain call with the right nonce.
+func VerifHarness_C09_invalid_tx_is_inert() {
+	run := func(withBad bool, badKind int, gasSel int) (err2 error, nonce uint64, valid, invalid int, receipts int) {
+		app := vC09App()
+		st := app.currentState
+		st.SetNonce(vC09From, 1)
+		st.AddBalance(vC09From, big.NewInt(1000000))
+		block := &gtypes.Block{Header: &gtypes.Header{ChainID: "c", Height: 7}, Data: &gtypes.Data{}, LastCommit: &gtypes.Commit{}}
+		var res gtypes.ExecuteResult
+		begin := app.genExecFun(block, &res) // real code
+		idx := 0
+		if withBad {
+			gas := []uint64{30000, 1 << 63, ^uint64(0)}[gasSel]
+			var bad *etypes.Transaction
+			switch badKind {
+			case 0:
+				bad = etypes.NewTransaction(1, vC19Addr(9), big.NewInt(5000000), gas, big.NewInt(0), []byte{1})
+			case 1:
+				bad = etypes.NewTransaction(0, vC19Addr(9), big.NewInt(0), gas, big.NewInt(0), []byte{1}) // stale nonce
+			case 2:
+				bad = etypes.NewTransaction(3, vC19Addr(9), big.NewInt(0), gas, big.NewInt(0), []byte{1}) // future nonce
+			default:
+				bad = etypes.NewTransaction(1, common.Address{}, nil, 0, nil, vC09KVPayload(&rtypes.KV{Key: []byte("k1"), Value: []byte("v1")}, false))
+			}
+			bad = vC09Sign(bad)
+			exec, end := begin()
+			err1 := exec(idx, []byte{9, 9}, bad)
+			vAssert(err1 != nil, "T4-bad-tx-is-invalid")
+			end([]byte{9, 9}, err1)
+			idx++
+		}
+		good := vC09Sign(etypes.NewTransaction(1, vC19Addr(8), big.NewInt(7), 30000, big.NewInt(0), []byte{1}))
+		exec, end := begin()
+		err2 = exec(idx, []byte{1, 2, 3}, good)
+		end([]byte{1, 2, 3}, err2)
+		return err2, st.GetNonce(vC09From), len(res.ValidTxs), len(res.InvalidTxs), len(app.receipts)
+	}
+	badKind, gasSel := vNondetLen("bad-kind", 0, 3), vNondetLen("bad-gas", 0, 2)
+	e1, n1, v1, i1, r1 := run(true, badKind, gasSel)
+	e0, n0, v0, _, r0 := run(false, 0, 0)
+	vReach("both-blocks-executed")
+	vAssert(e0 == nil && n0 == 2 && v0 == 1 && r0 == 1, "T4-good-tx-alone-is-valid")
+	vAssert((e1 == nil) == (e0 == nil), "T4-good-tx-fares-the-same-after-an-invalid-one")
+	vAssert(n1 == n0 && v1 == v0 && r1 == r0 && i1 == 1, "T4-invalid-tx-leaves-no-trace-in-the-block")
+}
